@@ -245,6 +245,7 @@ pub fn via_binary(f: &Facts, v: u8) -> Result<Ontology, String> {
 
 /// Noise added to the rendered files. All of it must be ignored by the loaders.
 #[derive(Clone, Debug, Serialize, Deserialize, PartialEq, Eq, Hash, Default)]
+#[serde(default)]
 pub struct JaxNoise {
     /// 0: "#..." header, 1: column-name header
     pub gene_header: u8,
@@ -262,6 +263,10 @@ pub struct JaxNoise {
     pub extra_cols: bool,
     /// write `is_obsolete: false` explicitly on some non-obsolete terms
     pub explicit_false: bool,
+    /// trailing modifiers on is_a lines: `is_a: HP:0000001 {source="x"} ! name`
+    pub isa_modifier: bool,
+    /// blank lines inside phenotype.hpoa
+    pub blank_rows: bool,
 }
 
 const TAG_POOL: [&str; 8] = [
@@ -329,7 +334,11 @@ pub fn render_jax(f: &Facts, noise: &JaxNoise) -> JaxFiles {
         for (c, p) in &f.edges {
             if *c == t.id {
                 let pname = f.term(*p).map(|x| x.name.as_str()).unwrap_or("");
-                obo.push_str(&format!("is_a: {} ! {}\n", hp(*p), pname));
+                if noise.isa_modifier && (pos + *p as usize) % 2 == 0 {
+                    obo.push_str(&format!("is_a: {} {{source=\"PMID:1\"}} ! {}\n", hp(*p), pname));
+                } else {
+                    obo.push_str(&format!("is_a: {} ! {}\n", hp(*p), pname));
+                }
             }
         }
         if t.obsolete {
@@ -393,6 +402,9 @@ pub fn render_jax(f: &Facts, noise: &JaxNoise) -> JaxFiles {
         if comments > 0 && pos % 3 == 0 {
             comments -= 1;
             hpoa.push_str("#OMIM:1\tcommented out\t\tHP:0000001\n");
+        }
+        if noise.blank_rows && pos % 4 == 1 {
+            hpoa.push('\n');
         }
     }
     for (k, id, nm, term) in not_rows {
